@@ -6,6 +6,28 @@ its preservation by every operation.
 namespace FxVerif.Proofs.C05
 open FxVerif.Gen.C05 FxVerif.Model.C05 List
 
+/-! ## the shapes of the source the model is parametrised by, as they are now -/
+
+/-- a refunded outgoing bridge call pays the record's refund address (regenerated: `callRefundReceiver`) -/
+@[simp] theorem callRefundTo_eq (c : Call) : callRefundTo c = c.refund := by
+  have : callRefundReceiver = .refund := by decide
+  simp [callRefundTo, this]
+
+/-- applying a bridge-call result: success deletes the record and logs the execution, failure refunds and deletes it
+(regenerated: `resultRefundsOn…`, `resultDeletesOn…`) -/
+theorem doExec_eq (s : State) (n : Nat) : doExec s n = doExecStd s n := by
+  have h1 : resultRefundsOnFailure = true := by decide
+  have h2 : resultRefundsOnSuccess = false := by decide
+  have h3 : resultDeletesOnFailure = true := by decide
+  have h4 : resultDeletesOnSuccess = true := by decide
+  unfold doExec doExecStd
+  split
+  · rfl
+  · split
+    · rfl
+    · rename_i p _ _ c _
+      cases hp : p.2.2 <;> simp [h1, h2, h3, h4]
+
 /-! ## containers -/
 
 theorem insertDesc_perm (x : Tx) (l : List Tx) : (insertDesc x l).Perm (x :: l) := by
@@ -352,7 +374,8 @@ theorem inv_refundCall {s : State} (c : Call)
     omega
 
 theorem inv_exec {s : State} (hi : Inv s) (n : Nat) : Inv (doExec s n).1 := by
-  unfold doExec
+  rw [doExec_eq]
+  unfold doExecStd
   split
   · exact hi
   · rename_i p hp
@@ -481,7 +504,7 @@ theorem settled_grows (s : State) (op : Op) : ∃ l, (step s op).1.settled = s.s
   | setParams p => simp only [step]; (repeat' split) <;> exact ⟨[], by simp⟩
   | block n => exact ⟨[], by simp [step, endBlock_eq]⟩
   | exec n =>
-    simp only [step]; unfold doExec
+    simp only [step]; rw [doExec_eq]; unfold doExecStd
     repeat' split
     all_goals first | (refine ⟨[], ?_⟩; simp; done) | exact ⟨_, rfl⟩ | (refine ⟨_, ?_⟩; simp [refundCall]; rfl)
   | observe h ev =>
